@@ -330,7 +330,7 @@ def run_variant(prog, R, variant, bindings, specs):
     import spox
     from spox import Tensor, argument
 
-    out = {"fail": None, "model": None, "args": None, "skipped": None}
+    out = {"fail": None, "model": None, "args": None, "caller_args": None, "skipped": None}
     vr = random.Random(variant["seed"])
     margs = L.main_args(prog)
     used = L.used_args(prog)
@@ -411,6 +411,7 @@ def run_variant(prog, R, variant, bindings, specs):
     out["model"] = model
     rev = {nm: a for a, nm in name_of.items()}
     out["args"] = [rev.get(i.name) for i in model.graph.input]
+    out["caller_args"] = [a for _, _, a in entries if a is not None]
     out["fail"] = judge_model(prog, model, by_pos, name_of, expected, check_order, bindings, specs, tag, extra_feeds)
     return out
 
@@ -506,7 +507,7 @@ def run(ck: core.Check):
         ck.leanchecker(["SpoxModel.Props.C01"])
 
     rng = ck.rng
-    n_random = ck.pick(650, 8000)
+    n_random = ck.pick(520, 8000)
     n_styles = ck.pick(3, 4)
     n_bind = 3
     skel_uses = ck.pick(3, 6)
@@ -549,7 +550,7 @@ def run(ck: core.Check):
     notes = collections.Counter()
     shrink_budget = [ck.pick(3, 6)]  # number of failures that get shrunk
 
-    def queue_lean(prog, R, em, model, arg_ids, meta, also_abstract):
+    def queue_lean(prog, R, em, model, arg_ids, meta, also_abstract, caller_args=None):
         """Queue the driver request for one model: the program numbered by the real creation order, the
         emission read from `model`, whose inputs are the main arguments `arg_ids` (model order)."""
         vals = [[rng.randrange(P) for _ in range(len(arg_ids))] for _ in range(2)]
@@ -564,11 +565,16 @@ def run(ck: core.Check):
         lean_reqs.append(L.lean_request(prog_c, em_c, vals, sd, [idmap[a] for a in arg_ids],
                                         [[idmap[r[0]], r[1]] for r in want_res]))
         lean_meta.append(meta + ("creation-order",))
-        lean_used.append([idmap[a] for a in L.main_args(prog) if a in set(L.used_args(prog))])
+        # the model's `usedArgs` of the caller's full input list (Lean) vs the harness's own reachability
+        full = list(arg_ids) if caller_args is None else list(caller_args)
+        used = set(L.used_args(prog))
+        lean_reqs[-1]["allArgs"] = [idmap[a] for a in full]
+        lean_used.append(([idmap[a] for a in full if a in used], caller_args is not None))
         if also_abstract:  # and in the abstract numbering: same values (renaming theorem)
             lean_reqs.append(L.lean_request(prog, em, vals, sd, arg_ids, want_res))
             lean_meta.append(meta + ("abstract-order",))
-            lean_used.append(L.used_args(prog))
+            lean_reqs[-1]["allArgs"] = full
+            lean_used.append(([a for a in full if a in used], caller_args is not None))
 
     lean_used: list[list[int]] = []
     read_profile = collections.Counter()
@@ -726,7 +732,8 @@ def run(ck: core.Check):
                         ck.failure(vkey, f"{vwhat} [{origin}, style {style}, {len(doc['prog']['nodes'])} nodes]", doc)
                         stats["oracle_failures"] += 1
                     elif variant["route"] == "build" and variant["drop"] and vres["model"] is not None and None not in (vres["args"] or [None]):
-                        drop_models.append((vres["model"], vres["args"]))
+                        if len(vres["args"]) < len(L.main_args(prog)) or origin.startswith("skeleton5"):
+                            drop_models.append((vres["model"], vres["args"], vres["caller_args"]))  # (else: the default build's question again)
                         stats["inputs_dropped"] += len(L.main_args(prog)) - len(vres["args"])
             if res["model"] is None:
                 if res["problems"] and not res["fail"]:
@@ -764,7 +771,7 @@ def run(ck: core.Check):
             queue_lean(prog, R, em, res["model"], [int(i.name[2:]) for i in res["model"].graph.input],
                        (pi, style, rseed, origin), stats["builds"] % 4 == 0)
             # the same emission questions for the models of the drop_unused_inputs builds of this case
-            for vmodel, vargs in drop_models:
+            for vmodel, vargs, vcaller in drop_models:
                 try:
                     em2, problems2 = L.extract_emission(prog, vmodel)
                 except Exception as e:  # noqa: BLE001
@@ -775,7 +782,7 @@ def run(ck: core.Check):
                         ck.broken("correspondence", "C01 emission extraction (drop_unused_inputs build)",
                                   f"{origin} style={style} rseed={rseed}: {problems2[:3]}")
                     continue
-                queue_lean(prog, R, em2, vmodel, vargs, (pi, style, rseed, origin + " [drop_unused_inputs]"), False)
+                queue_lean(prog, R, em2, vmodel, vargs, (pi, style, rseed, origin + " [drop_unused_inputs]"), False, vcaller)
                 stats["drop_builds_sent_to_lean"] += 1
             if pi % 97 == 0 and style == styles[0]:
                 ck.sample({"origin": origin, "style": style, "nodes": len(prog["nodes"]), "depth": d,
@@ -792,10 +799,14 @@ def run(ck: core.Check):
     if outs and len(outs) != len(lean_reqs):
         ck.broken("correspondence", "C01 driver", f"{len(outs)} answers for {len(lean_reqs)} requests")
     prev = None
-    for o, meta, req in zip(outs, lean_meta, lean_reqs):
+    for o, meta, req, (want_used, is_drop) in zip(outs, lean_meta, lean_reqs, lean_used):
         tag = None
         if "error" in o:
             tag = "driver-error"
+        elif o.get("used") != want_used:
+            tag = "usedArgs-differs-from-reachability"
+        elif is_drop and not o.get("dropValid"):
+            tag = "real-drop_unused_inputs-emission-is-not-valid-for-dropUnused"
         elif not o["wf"]:
             tag = "wfCheck-false"
         elif not o["valid"]:
@@ -809,7 +820,8 @@ def run(ck: core.Check):
                           f"program #{meta[0]} ({meta[3]}) style={meta[1]} rseed={meta[2]} answer={json.dumps(o)[:300]} emission={json.dumps(req['emit'])[:400]}")
         else:
             stats["emissions_validated"] += int(meta[4] == "creation-order")
-            stats["drop_builds_validated"] += int(meta[3].endswith("[drop_unused_inputs]"))
+            stats["drop_builds_validated"] += int(is_drop)
+            stats["usedArgs_compared"] += 1
             stats["eval_vs_denote_compared"] += int(req["denote"])
             if meta[4] == "abstract-order" and prev is not None and prev[1][:4] == meta[:4]:
                 stats["numberings_compared"] += 1
@@ -859,6 +871,7 @@ def run(ck: core.Check):
             "variant_builds_by_kind": dict(variant_hist),
             "drop_unused_inputs_models_validated_by_lean": stats["drop_builds_validated"],
             "model_inputs_dropped_by_drop_builds": stats["inputs_dropped"],
+            "usedArgs_lean_vs_reachability_compared": stats["usedArgs_compared"],
             "model_inputs_by_depths_read": dict(read_profile),
             "distribution": {
                 "ops": dict(hist_ops),
